@@ -568,10 +568,11 @@ impl World {
                 }
                 o.insert("lookup".into(), json!(lookup));
                 o.insert("refsto".into(), json!(refsto));
-                let mut broken: Vec<usize> = m.check_references().iter().map(|w| w.upgrade().map(|e| self.id_of(&e)).unwrap_or(0)).collect();
-                broken.sort();
-                o.insert("broken".into(), json!(broken));
             }
+            // the invalid-reference report is part of the reduced observation, too (it is derived from the model, but by code of its own)
+            let mut broken: Vec<usize> = m.check_references().iter().map(|w| w.upgrade().map(|e| self.id_of(&e)).unwrap_or(0)).collect();
+            broken.sort();
+            mo.as_object_mut().unwrap().insert("broken".into(), json!(broken));
             models.push(mo);
         }
         let mut files = vec![];
